@@ -419,6 +419,7 @@ func (r *Run) judgeRedeem(st Step, code *Cred, cs *ClientSpec, res *Resp, sentRe
 		if tokens {
 			r.violate("C01", "code-redeemed-twice", "", "%s: the code had already been redeemed and yielded tokens again", desc)
 			r.onRedeemSuccess(st, code, cs, res)
+			r.taint(g)
 			return
 		}
 		if !faulted && res.ErrName != "invalid_grant" {
@@ -480,6 +481,7 @@ func (r *Run) judgeRedeem(st Step, code *Cred, cs *ClientSpec, res *Resp, sentRe
 					desc, now.Sub(code.Issued), code.Life, g.Client, g.Redirect, g.Method, g.FailedRedeems)
 			}
 			r.onRedeemSuccess(st, code, cs, res)
+			r.taint(g)
 			return
 		}
 		if classInvalidGrant && !faulted && res.ErrName != "invalid_grant" && exp != MustNot {
@@ -682,6 +684,7 @@ func (r *Run) judgeRefresh(st Step, rt *Cred, cs *ClientSpec, res *Resp, mutated
 				r.violate(p, "dead-refresh-token-honoured", "", "%s: the token was %s (%v) and yielded tokens again", desc, rt.State, rt.Why)
 			}
 			r.onRefreshSuccess(st, rt, cs, res)
+			r.taint(g)
 			return
 		}
 		used := rt.State == Spent
@@ -718,6 +721,7 @@ func (r *Run) judgeRefresh(st Step, rt *Cred, cs *ClientSpec, res *Resp, mutated
 					now.Sub(rt.Issued), rt.Life, g.Client, g.Scopes, g.Audience, cs.Scopes, cs.Audience)
 			}
 			r.onRefreshSuccess(st, rt, cs, res)
+			r.taint(g)
 			return
 		}
 		if faulted {
